@@ -41,6 +41,16 @@ for pid in sorted(md.CLAIMED):
         else:
             c["text"] = c["text"] + "  Round 6: " + text + "."
         c["technique"] = c["technique"] + "; " + tech
+    add7 = getattr(md, "ADDENDA_R7", {}).get(pid)
+    if add7:
+        ref, text, tech = add7
+        c["design_ref"] = c["design_ref"] + ", " + ref
+        if "  Not decided:" in c["text"]:
+            head, tail = c["text"].split("  Not decided:", 1)
+            c["text"] = head + "  Round 7: " + text + ".  Not decided:" + tail
+        else:
+            c["text"] = c["text"] + "  Round 7: " + text + "."
+        c["technique"] = c["technique"] + "; " + tech
     checks.append({
         "property_id": pid,
         "quick_cmd": "./check %s --tier quick" % pid,
